@@ -213,13 +213,27 @@ def finish(pid, tier, seed, t0, part, rule, level='exploration', exhaustive=True
     for k in known.get('findings', []):
         if k['property'] == pid:
             ksigs[k['signature']] = k
+    import re
+    kre = [(re.compile(k['signature_regex']), k) for k in known.get('findings', []) if k['property'] == pid and k.get('signature_regex')]
     new, hits = [], []
+    fam_hits = {}
     for sig in sorted(part.viols):
-        (hits if sig in ksigs else new).append(sig)
+        if sig in ksigs:
+            hits.append(sig)
+            continue
+        for rx, k in kre:
+            if rx.fullmatch(sig):
+                fam_hits.setdefault(k['signature_regex'], [k, []])[1].append(sig)
+                break
+        else:
+            new.append(sig)
     rdir = os.path.join(VERIF, 'replays', pid)
     lines = []
     for sig in hits:
         lines.append('KNOWN-FINDING: property=%s %s' % (pid, ksigs[sig].get('what', sig)))
+    for rxs, (k, sigs) in sorted(fam_hits.items()):
+        lines.append('KNOWN-FINDING: property=%s %s [%d sites, e.g. %s]' % (pid, k.get('what', rxs), len(sigs), sigs[0]))
+        hits.extend(sigs)
     for sig in new:
         size, what, witness = part.viols[sig]
         os.makedirs(rdir, exist_ok=True)
